@@ -256,15 +256,14 @@ def Sim.op (s : Sim) (tok : String) : Option Sim :=
     let n ← (String.ofList rest).toNat?
     pure ({ s with cfg := { s.cfg with cache := n } }.emit "y")
   | 'J' :: rest => do
-    -- FetchSpendJournal of any delivered block: exact for an active block; for an inactive one
-    -- the record is absent, which reads as empty when the block spends nothing, else as an error
+    -- FetchSpendJournal of any delivered block: exact for an active block; what is kept for an
+    -- inactive one is not fixed by the property and not compared
     let id ← (String.ofList rest).toNat?
     let blk ← s.allblk.find? (fun b => b.id == id)
     let pre := s.chain.takeWhile (fun b => b.id != id)
     if s.chain.any (fun b => b.id == id) then
       pure (s.emit s!"j={join "," ((journalOf (utxoOf pre) (pre.length + 1) blk).map entryStr)}")
-    else if countIns blk == 0 then pure (s.emit "j=")
-    else pure (s.emit "err")
+    else pure (s.emit "inactive")
   | 'V' :: rest => do
     -- FetchUtxoView of a known transaction: its outputs, then (unless coinbase) its inputs
     let id ← (String.ofList rest).toNat?
